@@ -70,6 +70,11 @@ claim('C03', 'devx+bfs',
       'Stored-request fields (request ID, consumer URL, RelayState, audience) and user-record fields over the 16-symbol alphabet, one field (quick) / two fields (thorough) at a time, x 13 user-record shapes x {POST, Redirect} x 7 issuer/endpoint/time-format/algorithm configurations; IssueInstant, NotBefore, AuthnInstant and both NotOnOrAfter values are compared with exact expected strings because time.Now is pinned through the overlay (one additional real-clock pass with a bracket); response and assertion IDs must be distinct NCNames unseen in the whole run; every ordered pair of user shapes is replayed as a history of two callbacks on one provider so that state carried between sessions (pooled objects) shows. The reply is decoded without the repository decoders and compared with a reference built from the records the storage double served.',
       'Known finding: RelayState containing CR on the POST binding (HTML newline normalisation).', '§5 C03')
 
+claim('C19', 'devx-full',
+      'exhaustive enumeration (full product) of issuer strings and of header/Host/path configurations against the real factories, judged by an RFC 3986 component regex and an own RFC 7239 reading',
+      'A: full product of 2 246 480 issuer strings (scheme x separator x userinfo x host x port x path x query x fragment) x insecure on/off against StaticIssuer (and NewProvider for each accepted string); construction is allowed only for https (any case) or http+insecure, with a non-empty host, no non-empty query and no non-empty fragment, judged on the RFC 3986 appendix-B decomposition (independent of net/url). B: full product of 12 960 derivation cases (configured path x insecure x Host x 15 Forwarded header shapes incl. multiple lines / elements / quoting / malformed x issuer mode x header placement x request path x X-Forwarded-Proto), observed on IssuerFromRequest and on the entityID of the served metadata.',
+      'A bare ? or # is not counted as query/fragment; malformed Forwarded values may resolve either way.', '§5 C19')
+
 NOT_YET = {i: 'check not built yet in this revision (planned: see DESIGN.md §5 %s); not claimed until its machinery exists' % i for i in ids}
 
 def main():
